@@ -481,6 +481,25 @@ def op_measure(s, a):
     require_state(s, ref, "measure", remove=bool(remove), renorm=bool(renorm))
 
 
+def op_measure_outcome(s, a):
+    """get='outcome' with the plain spelling: nothing is projected and no state is returned, so the caller still holds the
+    same MPS and the same record - which must still be sound for it (checked by the invariant)."""
+    site, fix, seed = a
+    L = s.psi.L
+    site = site % L
+    d0 = dense(s.psi)
+    T = d0.reshape(dims(s))
+    probs = np.sum(np.abs(np.moveaxis(T, site, 0).reshape(s.d, -1)) ** 2, axis=1)
+    probs = probs / probs.sum()
+    kw = {"outcome": int(np.argmax(probs))} if fix else {}
+    note_consume(s)
+    o = s.psi.measure(site, get="outcome", info=s.info, seed=seed, **kw)
+    changed(s)
+    if not (0 <= o < s.d) or probs[o] <= 1e-14:
+        raise Violation("measure-impossible-outcome", outcome=int(o), p=float(probs[o]))
+    require_state(s, d0, "measure_outcome")
+
+
 def op_schmidt(s, a):
     i, what, drop = a
     L = s.psi.L
@@ -647,6 +666,7 @@ OPS = {
     "swap": (st.tuples(I, I, I), op_swap),
     "swap_to": (st.tuples(I, I), op_swap_to),
     "measure": (st.tuples(I, B, B, B, SEED), op_measure),
+    "measure_outcome": (st.tuples(I, B, SEED), op_measure_outcome),
     "schmidt": (st.tuples(I, I, st.integers(0, 5).map(lambda x: x == 0)), op_schmidt),
     "magnetization": (st.tuples(I, I, st.integers(0, 5).map(lambda x: x == 0)), op_magnetization),
     "local_expectation": (st.tuples(st.lists(I, min_size=1, max_size=2), SEED, B, I, st.integers(0, 5).map(lambda x: x == 0)),
